@@ -4,7 +4,8 @@ from lib.semcheck import impl, model_expr, compare, oracle, describe, shrink, IM
 
 ID = 'C09'
 THEOREMS = ['C09_compiled_program_computes_reference', 'C09_builtin_extensional', 'C09_call_spec_compound', 'C09_call_spec_atom', 'C09_once_spec', 'C09_findall_spec', 'C09_findall_one_instance_per_answer', 'C09_findall_instances', 'C09_findall_at_most_once', 'C09_eq_spec', 'C09_neq_spec']
-CASE_TIMEOUT = 20
+CASE_TIMEOUT = 60
+MODEL_NEEDS_IMPL = True
 COQ_CHUNK = 20
 RULE = ('random programs whose bodies use call/1..N (extra arguments), once/1, findall/3, = and \\= with goals written inline or arriving '
         'through one or two bound variables, atoms or compound goals, with 0/1/many solutions, as first/middle/last goal, under \\+ and inside '
